@@ -12,22 +12,25 @@ wt=$(./wt.sh new "$name") || exit 2
 res() { echo "RESULT $1"; }
 (
 cd "$wt"
-if ! git apply --check "$dir/patch.diff" 2>/dev/null; then res "patch-does-not-apply"; exit 0; fi
-git apply "$dir/patch.diff"
+if git apply --check "$dir/patch.diff" 2>/dev/null; then git apply "$dir/patch.diff";
+elif git apply --3way "$dir/patch.diff" >/dev/null 2>&1 && ! git diff --name-only --diff-filter=U | grep -q .; then res "patch applied with 3-way merge (the tree moved on since the change was written)"; git reset -q;
+else res "patch-does-not-apply"; git reset -q --hard; touch /tmp/$name.noapply; exit 0; fi
 if ! go build ./... >/tmp/$name.build 2>&1; then res "does-not-build"; tail -5 /tmp/$name.build; exit 0; fi
 if go test -vet=off -count=1 ./... >/tmp/$name.test 2>&1; then res "suite-passes"; else res "suite-FAILS"; grep -E "^(--- FAIL|FAIL|panic)" /tmp/$name.test | head -5; fi
 if [ -f "$dir/RUN.txt" ]; then
-  dest=$(sed -n '1s/ *::.*//p' "$dir/RUN.txt"); cmd=$(sed -n '1s/^[^:]*:: *//p' "$dir/RUN.txt")
+  # RUN.txt is free text: "Copy <file> to <dest path> and run ...: go test|run ..."
+  dest=$(grep -oE ' to [^ ]+\.go' "$dir/RUN.txt" | head -1 | sed 's/^ to //'); cmd=$(grep -oE 'go (test|run) .*' "$dir/RUN.txt" | head -1)
   demo=$(ls "$dir" | grep -E '_test\.go$|main\.go$' | head -1)
   if [ -n "$dest" ] && [ -n "$demo" ]; then
     mkdir -p "$(dirname "$dest")"; cp "$dir/$demo" "$dest"
     if timeout 600 bash -c "$cmd" >/tmp/$name.demo1 2>&1; then res "demo-with-change: PASSES (unexpected)"; else res "demo-with-change: fails (expected)"; fi
-    git apply -R "$dir/patch.diff"
+    git diff > /tmp/$name.applied; git checkout -q -- .
     if timeout 600 bash -c "$cmd" >/tmp/$name.demo0 2>&1; then res "demo-without-change: passes (expected)"; else res "demo-without-change: FAILS (unexpected)"; tail -5 /tmp/$name.demo0; fi
-    git apply "$dir/patch.diff"; rm -f "$dest"
+    rm -f "$dest"; git apply /tmp/$name.applied
   fi
 fi
 )
+if [ -f /tmp/$name.noapply ]; then ./wt.sh rm "$name"; rm -f /tmp/$name.*; exit 0; fi
 for p in $props; do
   out=$(VERIF_REPO=$wt timeout 1500 ./check $p 2>&1)
   echo "$out" | grep -E "^VIOLATION|^# " | head -4 | cut -c1-400
